@@ -82,6 +82,7 @@ type FnCtx struct {
 	defaults map[string]bool
 	label    string // name used in obligation names
 	aborted  string
+	divw     map[string]string
 }
 
 func (c *FnCtx) note(s string) { c.notes[s] = true }
@@ -924,6 +925,12 @@ func (c *FnCtx) execUnOp(p *Path, x *ssa.UnOp) {
 		c.loadFacts(p, v, x.Type())
 		if a.Origin != "" {
 			v.Origin = a.Origin
+		}
+		if v.K == KFunc && v.Origin == "" {
+			k := c.addrKey(a)
+			if i := strings.LastIndex(k, "."); i >= 0 {
+				v.Origin = k[i+1:]
+			}
 		}
 		fr.regs[x] = v
 	case token.NOT:
